@@ -45,6 +45,41 @@ pub proof fn lemma_builtin_checked(pi: &PublicInput, seg: int, cells: nat, t: na
 
 
 
+/// (same statement for trace lengths up to 2^160: the dynamic layout multiplies the step count by a proof-supplied factor)
+/// the code-level check IS the memory-layout rule, for every trace length: the field quotient of the usage is at most
+/// floor(trace_length / row_ratio) exactly when the usage is a whole number of instances not exceeding that capacity
+pub proof fn lemma_builtin_checked_wide(pi: &PublicInput, seg: int, cells: nat, t: nat, row_ratio: nat)
+    requires
+        t <= pow2(160), 1 <= cells <= 16, 1 <= row_ratio, 0 <= seg < pi.segments@.len(),
+    ensures
+        builtin_checked(pi, seg, cells, t, row_ratio) <==> builtin_ok(pi, seg, cells, t, row_ratio),
+{
+    broadcast use crate::prelude::group_felt;
+    let uses = fsub(pi.segments@[seg].stop_ptr@, pi.segments@[seg].begin_addr@);
+    let copies = t / row_ratio;
+    vstd::arithmetic::div_mod::lemma_div_is_ordered_by_denominator(t as int, 1, row_ratio as int);
+    vstd::arithmetic::div_mod::lemma_div_basics(t as int);
+    assert(copies <= t);
+    assert(pow2(160) * 16 < P) by(compute_only);
+    lemma_fdiv_back(uses, cells);
+    let qf = fdiv(uses, cells);
+    if qf <= copies {
+        // qf * cells < P, so uses == qf * cells exactly
+        assert(qf * cells <= pow2(160) * 16) by(nonlinear_arith) requires qf <= copies, copies <= pow2(160), cells <= 16;
+        vstd::arithmetic::div_mod::lemma_small_mod(qf * cells, P);
+        assert(uses == qf * cells);
+        vstd::arithmetic::div_mod::lemma_fundamental_div_mod_converse(uses as int, cells as int, qf as int, 0);
+    }
+    if uses % cells == 0 && uses / cells <= copies {
+        let q = uses / cells;
+        vstd::arithmetic::div_mod::lemma_fundamental_div_mod(uses as int, cells as int);
+        assert(uses == cells * q);
+        lemma_fdiv_exact(uses, cells, q);
+    }
+}
+
+
+
 /// C14 (address based): the first n_prog main-page cells are at addresses initial_pc, initial_pc+1, ... and there are enough of them
 pub open spec fn program_cells_addressed(pi: &PublicInput) -> bool {
     let n_prog = fsub(fsub(pi.segments@[1].begin_addr@, 2), 1);
